@@ -67,7 +67,7 @@ pub fn relevant(prop: &str, v: &Violation) -> bool {
     let c1to5 = matches!(v.prop, "C01" | "C02" | "C03" | "C04" | "C05");
     match prop {
         // a reachable value lost after an adoption in an active phase is a barrier-path failure
-        "C06" => (safety && v.active_adoptions > 0) || (v.prop == "C05" && matches!(v.tag, "weak-target-released" | "shell-released-while-referenced") && v.active_adoptions > 0),
+        "C06" => (safety && v.active_adoptions > 0) || (v.prop == "C05" && matches!(v.tag, "weak-target-released" | "shell-released-while-referenced") && v.active_adoptions > 0) || (v.prop == "C10" && v.tag == "arithmetic-panic-in-callback"),
         // "never keeps its target's value alive": the exactness oracle's weak-only clause
         "C05" => (safety && v.has_upgrade_store) || (v.prop == "C02" && v.tag == "weak-only-not-destructed"),
         "C11" => c1to5 && v.after_fault,
